@@ -456,7 +456,7 @@ def c12_history(state, cfg, case):
     docs = list(U.random_docs(6, case, 6)) + ["[r]: /u 't'\n\n[r]\n", "- a\n\n    code\n", "    # h\n", "<b>x</b>\n"]
     fails = []
     for _ in range(rnd.randint(2, 8)):
-        op = rnd.randint(0, 7)
+        op = rnd.randint(0, 8)
         d = rnd.choice(docs)
         if op == 0:
             a.render(d)
@@ -474,6 +474,9 @@ def c12_history(state, cfg, case):
         elif op == 6:
             b.render(d)
             b.enable(["table", "strikethrough"], True)
+        elif op == 8:
+            # core-chain rules too: their records must be per instance like everybody else's
+            b.disable(rnd.choice(["inline", "text_join", "replacements", "smartquotes"]), True)
         else:
             a.renderInline("*x* [r]")
     # A was only used for parsing: it must behave like a fresh instance
